@@ -20,7 +20,9 @@ CH, BT, SOL, DEPTH = "STATS_IDX_SOLVER_CHOICE_NB", "STATS_IDX_SOLVER_BACKTRACK_N
 
 # the level holding the ghost solution sigma (witness of 'sigma is still in the stack'), re-chosen after every iteration
 T_IT0 = "it0(stacks_top)[0]"
-LV_NEXT = f"ite(lv < {T_IT0}, lv, ite(in_box({SS}, {T_IT0}), {T_IT0}, ite(in_box({SS}, {T_IT0} + 1), {T_IT0} + 1, {T_IT0} + 2)))"
+DSEL = f"dom_update_stack[{T_IT0}, 0]"  # after a choice at level it0(top): the domain that was split (quantifier-free witness selection)
+INL = lambda l: f"({SS}[{l}, {DSEL}, MIN] <= sigma[{DSEL}] and sigma[{DSEL}] <= {SS}[{l}, {DSEL}, MAX])"
+LV_NEXT = f"ite(lv < {T_IT0}, lv, ite({INL(T_IT0)}, {T_IT0}, ite({INL(T_IT0 + ' + 1')}, {T_IT0} + 1, {T_IT0} + 2)))"
 SOL_HYP = f"sol() and 0 <= lv0 and lv0 <= old(stacks_top)[0] and in_box({SS0}, lv0)"
 
 
@@ -33,7 +35,7 @@ def solve_one_contract(variant, ca_target, extra_inv, extra_ens, **kw):
         ghost_calls={"consistency_alg_fct": "bc_calls", "dom_heuristic_fct": "choices", "backtrack": "bt"},
         ghost={"sigma": "int[D]", "lv0": "int"}, ghost_init={"lv": "@lv0"}, call_ghosts={"consistency_alg_fct": {"sigma": "sigma"}},
         modifies=CA_MOD, result="i64[V]",
-        loops={1: dict(fingerprint="while True", also_modifies=["lv"], ghost_updates={"lv": LV_NEXT}, invariant=[
+        loops={1: dict(fingerprint="while True", also_modifies=["lv"], ghost_updates={"lv": LV_NEXT}, step_ensures=kw.pop("step_ensures", []), invariant=[
             ("wf.top", "stacks_top[0] < H"), LEVELS_NONEMPTY, WF_DYN[3],
             ("C17.solutions", f"{dstat(SOL)} == 0"),
             ("C17.choices", f"{dstat(CH)} == choices"),
@@ -65,5 +67,10 @@ solve_one_contract("bc", "nucs/solvers/bound_consistency_algorithm.py::bound_con
 # semantic variant: no solution of the stack is lost by a search (ghost solution sigma, ghost level witness lv); heavier queries, own budget
 solve_one_contract("sem", "iface:ConsistencyAlg",
     [("C17.backtracks", f"{dstat(BT)} >= bt"), ("C02.remaining", f"implies({SOL_HYP}, 0 <= lv and lv <= stacks_top[0] and in_box({SS}, lv))")],
-    [("C02.no_loss", f"implies({SOL_HYP}, result is not None and 0 <= lv and lv <= stacks_top[0] and in_box({SS}, lv))")], timeout_ms=400000)
-REG.contracts["nucs/solvers/backtrack_solver.py::solve_one#sem"].props = []  # not registered in any check until it discharges within budget
+    [("C02.no_loss", f"implies({SOL_HYP}, result is not None and 0 <= lv and lv <= stacks_top[0] and in_box({SS}, lv))")], timeout_ms=400000,
+    step_ensures=[
+        ("C02.step_refuted", f"implies(({SOL_HYP}) and status == PROBLEM_INCONSISTENT, it0(lv) < {T_IT0})"),
+        ("C02.step_lower", f"implies(({SOL_HYP}) and it0(lv) < {T_IT0}, lv == it0(lv) and in_box({SS}, it0(lv)))"),
+        ("C02.step_range", f"implies({SOL_HYP}, 0 <= lv and lv <= stacks_top[0])"),
+    ])
+REG.contracts["nucs/solvers/backtrack_solver.py::solve_one#sem"].props = ["C02", "C03", "C10"]
